@@ -109,13 +109,17 @@ func (s *rangeProofStructure) buildProof(g zkproof.Group, challenge *big.Int, co
 func (s *rangeProofStructure) fakeProof(g zkproof.Group) RangeProof {
 	// Some setup
 	genLimit := new(big.Int).Lsh(big.NewInt(1), s.l2+rangeProofEpsilon+1)
+	genOffset := new(big.Int).Lsh(big.NewInt(1), s.l2+rangeProofEpsilon)
 
 	proof := RangeProof{map[string][]*big.Int{}}
 	for _, curRhs := range s.Rhs {
 		if curRhs.Secret == s.rangeSecret {
 			var rlist []*big.Int
 			for range rangeProofIters {
-				rlist = append(rlist, common.FastRandomBigInt(genLimit))
+				// (from the interval the results of a real proof lie in: randomizer + 2^(l2+epsilon+1),
+				// with the randomizer from [-2^(l2+epsilon), 2^(l2+epsilon)))
+				res := common.FastRandomBigInt(genLimit)
+				rlist = append(rlist, res.Add(res, genOffset))
 			}
 			proof.Results[curRhs.Secret] = rlist
 		} else {
